@@ -57,3 +57,8 @@ from props_dst import DstProp  # noqa: E402
 
 _reg(DstProp(['Ea.C20.both_given_verbatim', 'Ea.C20.required_hour', 'Ea.C20.affected_hour_rejected',
               'Ea.C20.accepted_outside_reported_hours', 'Ea.C20.find_time_probes', 'Ea.C20.validity_sound', 'Ea.C20.scan_orders']))
+
+from props_sun import SunProp  # noqa: E402
+
+_reg(SunProp(['Ea.C18.ceilSec_spec', 'Ea.C18.sunFind_spec', 'Ea.C18.sunNextRaw_spec', 'Ea.C18.sun_result_is_event',
+              'Ea.C18.no_location', 'Ea.C18.sun_same_date', 'Ea.C18.sun_midnight_fires_twice', 'Ea.C18.sun_tries_matches']))
